@@ -29,7 +29,7 @@ class StepAuthorization(PipelineBase):
                 sigs=[]
                 for j in range(ns):
                     lab=run.pick(nfun,'lab%d_%d_%d'%(si,k,j))
-                    mb=z3.BitVec('mb_%d_%d_%d'%(si,k,j),8); run.solver.add(z3.ULE(mb,nfun))
+                    mb=z3.BitVec('mb_%d_%d_%d'%(si,k,j),8); run.add(z3.ULE(mb,nfun))
                     sigs.append(SigD(lab,mb,z3.Bool('in_%d_%d_%d'%(si,k,j)),z3.Bool('ov_%d_%d_%d'%(si,k,j))))
                 fd=FileD(sname,k,BlockD('link',LinkD(sname,{'a':1},{'b':2}),sigs))
                 files[k]=fd; dirs[()].append(fd)
